@@ -28,6 +28,8 @@ def layout_case(rng, positions, n_types=None, mixed=True, ring_choice=(2, 3, 4))
     for k in range(1, nt):
         # another type with a different ring count inside the same outer duct
         nr = rng.choice([r for r in (2, 3, 4, 5) if r != base['num_rings']] or [3])
+        if rng.random() < 0.3:
+            nr = base['num_rings']       # same number of edge cells per side, other pin pitch: the finer pitch meshes the shared side
         t = gi.random_asm_type(rng, "t%d" % k, n_ring=nr, n_duct=1)
         f = (outer[0] * rng.uniform(0.93, 0.999)) / (math.sqrt(3) * (nr - 1) * t['pin_pitch'] + t['pin_diameter'] + 2 * t['wire_diameter'])
         for key in ('pin_pitch', 'pin_diameter', 'wire_diameter', 'clad_thickness'):
@@ -78,7 +80,44 @@ def dump_layout(r, name):
     return "\n".join(L), ok
 
 
+def shared_cells_oracle(ctx, r, case, tag):
+    """a gap cell shared by two assemblies is seen identically by both, with the finer of the two duct meshes: the finer mesh is
+    decided here from the input (more edge cells per side; equal counts: the smaller pin pitch; an assembly without pins has none)"""
+    core = r.core
+    asms = r.assemblies
+    seen = {}
+    for a in range(core.n_asm):
+        k = 0
+        for s_ in range(6):
+            n_edge = int(core._geom_params['sc_per_side'][a][s_])
+            nb = int(np.array(core.asm_adj)[a][s_]) - 1
+            cands = [x for x in (a, nb) if x >= 0 and asms[x].has_rodded]
+            want = None
+            if cands:
+                best = max(cands, key=lambda x: (asms[x].rodded.n_ring - 1, -asms[x].rodded.pin_pitch))
+                want = (asms[best].rodded.n_ring - 1, float(asms[best].rodded.pin_pitch))
+            for e in range(n_edge):
+                cell = int(core._asm_sc_adj[a][k]) - 1
+                w = float(core.gap_params['asm wp'][a][k])
+                seen.setdefault(cell, []).append((a, s_, w))
+                if want is not None and (n_edge != want[0] or abs(w - want[1]) > 1e-12 * want[1]):
+                    ctx.violation("c09-not-the-finer-mesh", "assembly %d side %d (neighbour %s): %d edge cells of width %.9g m, the finer "
+                                  "of the two duct meshes has %d cells of width %.9g m" % (a, s_, nb if nb >= 0 else None, n_edge, w,
+                                                                                         want[0], want[1]), case=case, layout=tag)
+                    return
+                k += 1
+            k += 1       # the corner cell closing the side
+    ctx.count("shared_cell_layouts")
+    for cell, views in seen.items():
+        ws = [v[2] for v in views]
+        if max(ws) - min(ws) > 1e-12 * max(ws):
+            ctx.violation("c09-shared-cell-differs", "gap cell %d is %s m wide for the assemblies %s" % (cell, ws, [v[0] for v in views]),
+                          case=case, layout=tag)
+            return
+
+
 def numeric_oracle(ctx, r, case, tag):
+    shared_cells_oracle(ctx, r, case, tag)
     core = r.core
     hex_side = core.duct_oftf / math.sqrt(3)
     for a in range(core.n_asm):
